@@ -49,10 +49,13 @@ def check_batched(ctx, fi: FuncInfo, cls: str, rule: str = "NI-1") -> int:
     ys = getitem(S, const(1))
     def seq_members(t):
         t = strip_wrappers(t)
+        if t.op == "record":
+            # a NamedTuple of arrays scanned as a whole; a field left at None is an empty subtree
+            t = mk("tuple", *[a for a in t.args[1:] if not (a.op == "const" and a.args[0] is None)])
         if t.op in ("tuple", "list"):
             out = []
             for a in t.args:
-                sub = seq_members(a) if strip_wrappers(a).op in ("tuple", "list") else None   # (fields, (w_up, w_dn))
+                sub = seq_members(a) if strip_wrappers(a).op in ("tuple", "list", "record") else None   # (fields, (w_up, w_dn))
                 out.extend(sub if sub is not None else [a])
             return out
         if t.op == "binop" and t.args[0] == "+":
@@ -63,7 +66,7 @@ def check_batched(ctx, fi: FuncInfo, cls: str, rule: str = "NI-1") -> int:
             return seq_members(call_parts(t)[1][0])
         return None
 
-    members = seq_members(xs) if strip_wrappers(xs).op in ("tuple", "list", "binop") or (
+    members = seq_members(xs) if strip_wrappers(xs).op in ("tuple", "list", "binop", "record") or (
         strip_wrappers(xs).op == "call" and func_name(strip_wrappers(xs)) in ("builtins.tuple", "builtins.list")) else None
     if members is None:
         members = [xs]
